@@ -3,9 +3,10 @@
 Histories are separated by `reset`. Packet numbers are concentrated at the window edges: distance
 0, 1, 2, 126..131 left of the right edge, jumps of 1, 2, 127..131 and huge jumps to the right,
 re-insertions of earlier numbers, descending runs, right edges near 0 and near 2^62-1.
-The thorough tier (and, shorter, the quick tier) additionally enumerates ALL insert sequences up
-to a fixed length over a 10-value alphabet, probing the whole alphabet range after every insert
-(so every interleaving with `check` is covered as well).
+The thorough tier (and, shorter, the quick tier) additionally enumerates ALL insert sequences of
+length 1..N over a 10-value alphabet (N = 5 thorough, 3 quick), each closed by a check() probe of
+the whole alphabet range (check is a pure observer, so every interleaving with `check` is covered
+as well).
 
 The python oracle is a plain set of the packet numbers the *implementation* accepted: every
 answer of insert/check/probe must be what a receiver that remembers everything would say, with the
